@@ -48,6 +48,13 @@ def variants(text):
 
 
 def work(job):
+    try:
+        return work1(job)
+    except Exception as e:      # e.g. the emitted text cannot be lexed by tool/rsx.py
+        return {"i": job[0], "status": "tool_exception", "grammar": job[1], "detail": "%s: %s" % (type(e).__name__, str(e)[:300])}
+
+
+def work1(job):
     i, text, outdir = job
     d = os.path.join(outdir, "w%06d" % i)
     os.makedirs(d, exist_ok=True)
